@@ -58,6 +58,7 @@ fn build_as_immediate(
     builder: CompiledInvocationBuilder<'_>,
 ) -> Result<CompiledInvocation, InvocationError> {
     let cells = (builder.program_info.const_data_values)(&libfunc.const_type)
+        .ok_or(InvocationError::InvalidGenericArg)?
         .into_iter()
         .map(CellExpression::Immediate)
         .collect();
